@@ -240,39 +240,27 @@ def check_close(ctx):
 
 
 def _dominated_by_isopen(meth, call):
-    """accepted idioms: 'if self.isopen(): <close>' ; early 'if not self.isopen(): return' before the call"""
-    def is_isopen(e):
-        return isinstance(e, ast.Call) and dotted(e.func) in ('self.isopen',) or \
-            (isinstance(e, ast.Attribute) and dotted(e) in ('self._isopen',))
-
-    # (a) enclosing if
-    prev = call
-    for p in parent_chain(call):
-        if isinstance(p, ast.If):
-            t = p.test
-            if is_isopen(t) and prev in _flatten(p.body):
-                return True
-            if isinstance(t, ast.UnaryOp) and isinstance(t.op, ast.Not) and is_isopen(t.operand) \
-                    and prev in _flatten(p.orelse):
-                return True
-        if p is meth:
-            break
-        if isinstance(p, ast.stmt):
-            prev = p
-    # (b) early return at top level of the method before the statement containing the call
-    top = None
-    for p in [call] + list(parent_chain(call)):
-        if getattr(p, '_parent', None) is meth:
-            top = p
-            break
-    for st in meth.body:
-        if st is top:
-            break
-        if isinstance(st, ast.If) and isinstance(st.test, ast.UnaryOp) and isinstance(st.test.op, ast.Not) \
-                and is_isopen(st.test.operand) and st.body and isinstance(st.body[-1], (ast.Return, ast.Raise)) \
-                and not st.orelse:
-            return True
-    return False
+    """path-wise (paths.py): on every path of the method that reaches the native close, the last decision taken before it on
+    self.isopen() (directly or through a local that holds its result) was 'open'; the spelling - enclosing if, early return for
+    the closed case, a flag - is immaterial"""
+    from .. import paths as _paths
+    key = (getattr(call, 'lineno', None), getattr(call, 'col_offset', None))
+    reached = 0
+    for pth in _paths.function_paths(meth):
+        res = _paths.expand(pth)
+        if not res.feasible:
+            continue
+        for k_, (st, new) in enumerate(res.stmts):
+            if not any(isinstance(n, ast.Call) and (getattr(n, 'lineno', None), getattr(n, 'col_offset', None)) == key and norm(n.func) == norm(call.func) for n in ast.walk(st)):
+                continue
+            reached += 1
+            isopen = None
+            for e_, x, p_ in res.conds[:res.ncond_at[k_]]:
+                if norm(x) in ('self.isopen()', 'self._isopen'):
+                    isopen = p_
+            if isopen is not True:
+                return False
+    return reached > 0
 
 
 def _flatten(body):
